@@ -59,6 +59,41 @@ MIRROR_EXCEPT = {'Full': 'concat vs positional drop (not an algebraic inverse by
                  'EWMean': 'on_old is unreachable (DECAY-UNREACHABLE)'}
 
 
+# the same exception independent of names: state component 1 of EWMean (initial() supplies the literal 1, every step returns
+# the float computed from it) may be updated with an augmented assignment on a *local name* that holds it
+SCALAR_COMPONENT_OK = {('EWMean', 1): AUG_SCALAR_OK[('EWMean.on_new', 'old_wt')]}
+
+
+def _state_component(fn, name, depth=0):
+    """index of the state component a local / parameter `name` of a method of an aggregation class holds, or None:
+    either unpacked from the state parameter (`a, b, c = acc`), or a helper's parameter bound to such a local by every caller"""
+    if fn.cls is None or depth > 2:
+        return None
+    params = fn.params()
+    if fn.name in ('on_new', 'on_old') and len(params) > 1:
+        accp = params[1]
+        for n in own_nodes(fn.node):
+            if isinstance(n, ast.Assign) and isinstance(n.value, ast.Name) and n.value.id == accp \
+                    and isinstance(n.targets[0], (ast.Tuple, ast.List)):
+                for i, t in enumerate(n.targets[0].elts):
+                    if isinstance(t, ast.Name) and t.id == name:
+                        return i
+            # re-bound from a helper's result in the same tuple position it is passed in: stays the same component
+        return None
+    if name in params:
+        idx = params.index(name) - 1
+        found = set()
+        for caller in fn.cls.methods.values():
+            for c in own_nodes(caller.node):
+                if isinstance(c, ast.Call) and isinstance(c.func, ast.Attribute) and isinstance(c.func.value, ast.Name) \
+                        and c.func.value.id == 'self' and c.func.attr == fn.name and 0 <= idx < len(c.args) \
+                        and isinstance(c.args[idx], ast.Name):
+                    found.add(_state_component(caller, c.args[idx].id, depth + 1))
+        if len(found) == 1:
+            return found.pop()
+    return None
+
+
 def fold_functions(model):
     out = []
     for f in model.module(AGG).all_funcs:
@@ -236,6 +271,10 @@ def check_fold_pure(ctx, R):
         muts, params = param_mutations(fn)
         for node, name, what in muts:
             if (fn.qual, name) in AUG_SCALAR_OK:
+                continue
+            if fn.cls is not None and (fn.cls.name, _state_component(fn, name)) in SCALAR_COMPONENT_OK \
+                    and isinstance(node, ast.AugAssign) and isinstance(node.target, ast.Name):
+                R.table('SCALAR_COMPONENT_OK', {'%s[%s]' % k: v for k, v in SCALAR_COMPONENT_OK.items()})
                 continue
             if name in params and fn.owner is None and not isinstance(node, ast.AugAssign):
                 # a module-level helper mutating its own parameter: acceptable iff every caller passes a fresh object
@@ -431,6 +470,16 @@ def check_ctor_copy(ctx, R):
                 for k in n.keywords:
                     if k.arg:
                         supplied[k.arg] = src(k.value)
+                    elif isinstance(k.value, ast.Name):
+                        # **options, where options is a local bound once to dict(a=..., b=...) / {'a': ..., 'b': ...}
+                        defs = [s_.value for s_ in own_nodes(fn.node) if isinstance(s_, ast.Assign)
+                                and any(isinstance(t, ast.Name) and t.id == k.value.id for t in s_.targets)]
+                        if len(defs) == 1:
+                            d = defs[0]
+                            if isinstance(d, ast.Call) and src(d.func) == 'dict' and not d.args:
+                                supplied.update({kk.arg: src(kk.value) for kk in d.keywords if kk.arg})
+                            elif isinstance(d, ast.Dict):
+                                supplied.update({x.value: src(y) for x, y in zip(d.keys, d.values) if isinstance(x, ast.Constant)})
                 allp = tparams + [a.arg for a in tinit.node.args.kwonlyargs]
                 missing = [p for p in allp if p in fields and p not in REPLACED and supplied.get(p) != 'self.' + p]
                 # a freshly replaced root must be supplied too
